@@ -269,7 +269,8 @@ def c14(tier):
                 uid = st.render_directive_case(pk, c, uid)
             pk.finish()
             packs.append((pk, mode == "structured"))
-    run_cases(binary, None, v, {"C14"}, "directives", packs=packs)
+    # in these files every statement is governed by the directive placement rules: any mismatch speaks about C14
+    run_cases(binary, None, v, {"C14"}, "directives", packs=packs, relabel=lambda prop, r, text: "C14" if r is not None else prop)
     # the statement-level family with directives on statements that have targets and key-values
     cases2 = [c for c in tlc_cases(v, "intended/StmtKv.cfg") if c["s"]["dir"] != "none"]
     run_cases(binary, cases2, v, {"C14"}, "directives-kv")
